@@ -146,7 +146,9 @@ def sensitivity(args):
         res = run_against_patch(p, props, seed=args.seed)
         caught = [k for k, v in res.items() if v["rc"] == 1]
         status = "CAUGHT" if caught else "MISSED"
-        if not caught:
+        if not caught and meta.get("equivalent"):
+            status = "MISSED-AS-EXPECTED (equivalent: " + meta["equivalent"][:80] + ")"
+        elif not caught:
             missed += 1
         name = p.parent.name if p.name == "patch.diff" else p.stem
         print(f"{status} {name}: " + "; ".join(f"{k} rc={v['rc']} {v['wall']}s" for k, v in res.items()))
